@@ -12,7 +12,7 @@ NOTE = {
  "C02-n3": "needs an incomplete database, which C02 does not quantify over; the change violates C07 (a call that neither reports the missing node nor gives the complete-database result) and the C07 check detects it",
  "C13-n3": "needs a database whose reads raise a transient error; C13 quantifies over tries and keys, not over faulty databases",
  "C04-p3": "adds a (wrong) ScratchDB.pop so that a batch opened on the batch trie of another batch can commit; on the current tree such a nested batch raises AttributeError as soon as it pruned anything. Batches inside batches are outside the modelled universe (DESIGN.md section 8); not detected",
- "C09-p1": "needs a database WRITE that raises during a direct set/delete of a pruning trie; no property quantifies over write failures of pruning tries outside batches (the current tree itself leaves partial writes and stale counts behind there); not modelled, not detected",
+ "C09-p1": "needs a database WRITE that raises during a direct set/delete of a pruning trie; no property quantifies over write failures of pruning tries outside batches (the current tree itself leaves partial writes and stale counts behind there); modelled as a named deviation of FailWrite and replayed in the C06 check, where the change shows up as NOTEs (by design not as a violation)",
  "C09-p3": "needs a database write that raises at the last write of a direct call: C09 quantifies over schedules of walk steps and set/delete, not over write failures; the change violates C04 (root moved by a failed write) and C02, and both of those checks detect it",
  "C14-n3": "from_db over the tree's own database and root still reads identically, which is all the property says; the harness reports the lost write-through as a mirror note",
 }
